@@ -127,6 +127,10 @@ impl<D: Doc> Root<D> {
   pub fn get_injections<F: Fn(&str) -> Option<D::Lang>>(&self, get_lang: F) -> Vec<Root<D>> {
     let root = self.root();
     let range = self.lang().extract_injections(root);
+    // a HashMap has no order of its own: list the injected documents by language name,
+    // so that every run yields them (and their matches) in the same order
+    let mut range: Vec<_> = range.into_iter().collect();
+    range.sort_by(|a, b| a.0.cmp(&b.0));
     let roots = range
       .into_iter()
       .filter_map(|(lang, ranges)| {
